@@ -4,6 +4,7 @@ import (
 	"encoding/binary"
 	"encoding/hex"
 	"fmt"
+	"io"
 	"math"
 	"os"
 	"strconv"
@@ -301,11 +302,25 @@ func (s *Sys) execRead(imm *iavl.ImmutableTree, toks []string) string {
 			it = s.tree.ImmutableTree
 		}
 		k := unhx(toks[1])
+		// whichever call comes first is the one that memoises: the order depends on the key
+		if it.Size() > 0 && len(k)%2 == 1 {
+			iavl.WriteDOTGraph(io.Discard, it, nil)
+		}
+		if len(k)%3 == 0 {
+			_, _ = it.RenderShape("  ", nil)
+		}
 		_, _ = it.GetMembershipProof(k)
 		_, _ = it.GetNonMembershipProof(k)
 		_, _ = it.GetProof(k)
 		_ = it.Hash()
 		_, _, _ = it.GetWithIndex(k)
+		// rendering / debugging helpers are read-only calls too
+		if it.Size() > 0 {
+			iavl.WriteDOTGraph(io.Discard, it, nil)
+		}
+		_ = it.String()
+		_, _ = it.RenderShape("  ", nil)
+		_, _ = it.VerifyMembership(nil, k)
 		return "ok"
 	}
 	return "badread"
